@@ -212,9 +212,9 @@ zgsrfs(trans_t trans, SuperMatrix *A, SuperMatrix *L, SuperMatrix *U,
     
     if ( notran ) {
 	*(unsigned char *)transc = 'N';
-        transt = TRANS;
+        transt = CONJ;   /* ?lacon_ needs the conjugate transpose of the operator */
     } else {
-	*(unsigned char *)transc = 'T';
+	*(unsigned char *)transc = (trans == TRANS) ? 'T' : 'C';
 	transt = NOTRANS;
     }
 
